@@ -573,7 +573,13 @@ impl Wall {
         };
 
         // Valor teniendo en cuenta el efecto del aislamiento perimetral en régimen estacionario B.4
-        let U = fround2(U_bf + 2.0 * psi_gnd_ext / char_dim);
+        // Sin dimensión característica (solera de superficie nula) no hay perímetro al que repartir el efecto del aislamiento
+        let U_psi = if char_dim > 0.0 {
+            2.0 * psi_gnd_ext / char_dim
+        } else {
+            0.0
+        };
+        let U = fround2(U_bf + U_psi);
         debug!(
             "{} (suelo de sótano) U={:.2} (z={:.2}, d_t={:.2}, B'={:.2}, U_bf={:.2}, psi_ge = {:.3})",
             self.name,
